@@ -386,6 +386,7 @@ class MultiTypeMap(dict):
 
         funcs.reverse()
 
+        writes = []
         parents = []
         for group, (func, codes) in zip(results, funcs):
             tups = (
@@ -393,17 +394,21 @@ class MultiTypeMap(dict):
                 if not parents
                 else [(parent, *obj_t_tup) for parent in parents]
             )
-            if func is None:
-                # Ambiguous rank: remember the error, but keep laying out the
-                # continuations of the ranks below it
-                for tup in tups:
-                    self.errors[tup] = self.key_error(obj_t_tup, group)
-            else:
-                for tup in tups:
-                    self[tup] = func
+            writes.append((tups, func, group))
             if not codes:
                 break
             parents = codes
+
+        # Lay out the lower ranks first and the entry for the plain type tuple
+        # last: if we are interrupted, the resolution simply starts over
+        for tups, func, group in reversed(writes):
+            for tup in tups:
+                if func is None:
+                    # Ambiguous rank: remember the error (the continuations
+                    # of the ranks below it are laid out nonetheless)
+                    self.errors[tup] = self.key_error(obj_t_tup, group)
+                else:
+                    self[tup] = func
 
         return True
 
